@@ -135,6 +135,9 @@ GUESS_LATE = ['FlipAngle', 'TriggerTime', 'AcquisitionNumber', 'InstanceNumber']
 # RepetitionTime values exactly representable in float32 (pixdim)
 TR_VALUES = [2000.0, 500.0, 750.0, 40.0, 1234.5, 3000.25, 8000.0, 12.125, 65.0, 2500.0]
 
+QUERY_ORDERS = [['affine', 'data', 'affine'], ['affine', 'data', 'affine'], ['affine', 'shape', 'data', 'affine'], ['affine', 'affine', 'data'],
+                ['shape', 'affine', 'data'], ['data', 'affine', 'shape', 'affine'], ['data', 'shape', 'affine']]
+
 ACQ_PATTERNS = ['ascending', 'descending', 'interleaved', 'irregular', 'equal', 'inconsistent', 'missing', 'none_in_some', 'one_bad']
 TR_VARIANTS = ['unique', 'unique', 'varying', 'absent', 'some']
 PHASE_VARIANTS = ['ROW', 'COL', 'ROW', 'COL', 'varying', 'absent', 'some', 'other']
@@ -294,6 +297,8 @@ def make_stack_case(rng, S, T, V, orient='ax', direction=1, gap=2.0, origin=(0.,
             for x in row:
                 den = max(den, Fraction(x).denominator)
     case['den'] = den                      # rescaled values are multiples of 1/den (a power of two)
+    # public queries on a freshly filled stack, in this order (their order must not matter)
+    case['queries'] = list(rng.choice(QUERY_ORDERS))
     if vo2 is not None:
         case['vo2'] = vo2
     return case
@@ -589,6 +594,30 @@ def reported_transform(img):
     raise ValueError('no DcmMeta extension in the result')
 
 
+def run_queries(dcmstack, case, den):
+    """get_affine() / get_shape() / get_data() in the case's order on a FRESH stack filled in the case's add order (nothing else
+    has been asked of it before): one record per query"""
+    import numpy as np
+    st, _, _ = build_stack(dcmstack, case, None, [build_ds(f) for f in case['files']])
+    out = []
+    for q in case['queries']:
+        try:
+            if q == 'affine':
+                out.append({'op': q, 'affine': [[float(x) for x in row] for row in np.array(st.get_affine(), dtype=np.float64).tolist()]})
+            elif q == 'shape':
+                out.append({'op': q, 'shape': [int(x) for x in st.get_shape()]})
+            else:
+                arr = np.ascontiguousarray(st.get_data())
+                flat = []
+                for x in arr.ravel().tolist():
+                    y = Fraction(x) * den
+                    flat.append(int(y) if y.denominator == 1 else None)
+                out.append({'op': q, 'shape': [int(x) for x in arr.shape], 'data': flat})
+        except Exception as e:
+            out.append({'op': q, 'err': ERRMAP.get(type(e).__name__, 'ECrash:' + type(e).__name__)})
+    return out
+
+
 def run_conversion_case(dcmstack, case):
     """The observation shared by C02 and the C20 header part: to_nifti(vo, embed_meta=False) (array, dtype, affine, header,
     slice-time argument), the same conversion with embed_meta=True (its image and the REPORTED reorientation transform),
@@ -619,6 +648,8 @@ def run_conversion_case(dcmstack, case):
                 obs['emb'] = {'shape': o3['shape'], 'data': o3['data'], 'affine': o3['affine'], 'T': reported_transform(img3)}
             except Exception as e:
                 obs['emb'] = {'err': 'ECrash:unobservable-image(%s)' % type(e).__name__}
+    if case.get('queries'):
+        obs['q'] = run_queries(dcmstack, case, den)
     if 'vo2' in case and obs.get('err') is None:
         dss2 = [build_ds(f) for f in case['files']]
         st2, wid2, img2, err2, calls2 = run_to_nifti(dcmstack, case, False, None, vo=case['vo2'], datasets=dss2)
@@ -663,10 +694,12 @@ def coq_case(case, obs):
     gs = [obs['files'][i] for i in case['add_order']]
     emb = obs.get('emb') or {}
     T = emb.get('T')
-    return '(mkcase %s %s %s %s %s %s %s %s %s)' % (
+    qaff = next((r['affine'] for r in obs.get('q') or [] if r.get('op') == 'affine' and 'affine' in r), None)
+    return '(mkcase %s %s %s %s %s %s %s %s %s %s)' % (
         cbool(case.get('time_order') is not None), cbool(case.get('vector_order') is not None),
         clist(coq_gfile(a) for a in gs), copt(case.get('vo'), cstr), cbool(bool(case['exact'])),
         clist(cmat(a['faff']) for a in gs), clist(coq_rescale(a) for a in gs),
+        copt(qaff, lambda m: clist(clist(cq(x) for x in row) for row in m)),
         copt(T, lambda m: clist(clist(cq(x) for x in row) for row in m)), coq_obs(case, obs))
 
 
@@ -808,6 +841,33 @@ def check_transform(case, emb):
     return None
 
 
+def check_queries(case, q, exact):
+    """get_affine / get_shape / get_data asked in any order of a freshly filled complete stack: every one succeeds, EVERY affine
+    returned (also one asked for before anything else) maps the voxels of the data array to their patient positions, and
+    repeated queries agree"""
+    if not q:
+        return None
+    for k, r in enumerate(q):
+        if 'err' in r:
+            return 'not-converted: complete %dx%dx%d stack: get_%s() as query #%d raised: %s' % (tuple(case['dims']) + (r['op'], k + 1, r['err']))
+    datas = [r for r in q if r['op'] == 'data']
+    affs = [(k, r) for k, r in enumerate(q) if r['op'] == 'affine']
+    shapes = [r['shape'] for r in q if 'shape' in r]
+    if any(sh != shapes[0] for sh in shapes):
+        return 'queries: get_shape() / get_data().shape disagree on one stack: %s' % shapes
+    if datas:
+        if any(x is None for x in datas[0]['data']):
+            return 'values: get_data() holds values that are no rescaled source values'
+        for k, r in affs:
+            m = check_values_geometry(case, {'shape': datas[0]['shape'], 'data': datas[0]['data'], 'affine': r['affine']}, exact,
+                                      'get_affine() asked as query #%d of %s: ' % (k + 1, '/'.join(case['queries'])))
+            if m:
+                return m
+    if any(r['affine'] != affs[0][1]['affine'] for k, r in affs):
+        return 'queries: get_affine() returned different affines on the same stack'
+    return None
+
+
 def oracle_c02(case, obs):
     """C02 on the implementation alone.  None = holds on this case.  Every clause is evaluated; the first message wins."""
     m = crash_message(obs)
@@ -833,6 +893,10 @@ def oracle_c02(case, obs):
             m = check_values_geometry(case, emb, exact, 'embed_meta=True: ') or check_transform(case, emb)
             if m:
                 msgs.append(m)
+    # the public queries on a fresh stack, in whatever order
+    m = check_queries(case, obs.get('q'), exact)
+    if m:
+        msgs.append(m)
     # a second voxel order: only axes are permuted / flipped
     alt = obs.get('alt')
     if alt is not None:
@@ -974,6 +1038,10 @@ def signature_of(msg):
     """clause + mechanism of a failure, without case data (no dims, voxel orders, file numbers)"""
     msg = msg or ''
     tag = msg.split(':')[0].strip()
+    if tag == 'not-converted' and 'as query' in msg:
+        return 'not-converted-query/' + msg.rsplit(': ', 1)[-1].replace('ECrash:', '')
+    if tag == 'geometry' and 'asked as query' in msg:
+        return 'geometry/query-affine'
     if tag == 'not-converted':
         cls = msg.rsplit(': ', 1)[-1].replace('ECrash:', '').split('(')[0]
         return 'not-converted%s/%s' % ('-embed' if 'embed_meta=True' in msg else '', cls)
